@@ -43,7 +43,8 @@ THEOREMS = [
     'C09_normalize_float_idempotent', 'C09_parse_material_density_fixed',
     'C09_parse_material_classes', 'C09_like_but_rho',
     'C09_like_but_void_refuted', 'C09_pot_fill_provenance',
-    'C09_provenance_head_is_leaf', 'C09_lattice_elements', 'C09_geomcomp_name',
+    'C09_provenance_head_is_leaf', 'C09_treat_fill_total',
+    'C09_lattice_elements', 'C09_geomcomp_name',
     'C09_geomcomp_one_line', 'C09_geomcomp_lines', 'C09_compositions_exact',
     'C09_compositions_distinct', 'C09_geomcomp_name_has_composition',
     'C09_material_leading_zero_refuted',
@@ -80,7 +81,9 @@ ASSUMPTIONS = [
     'C09_provenance_head_is_leaf / C09_pot_fill_provenance: the parsed cells '
     'carry no provenance (idorigin empty) and new_cell_key is not below any '
     'existing key (true of construct_volume_t4: free_key = max key + 1); the '
-    'statement is conditional on pot_fill returning (no RecursionError)',
+    'statement is conditional on pot_fill returning (no RecursionError), '
+    'which C09_treat_fill_total proves for acyclic universe nesting and '
+    'fuel above the nesting depth',
     'C09_compositions_exact / C09_geomcomp_name_has_composition: the stored '
     'densities are fixed points of normalize_float (proved for every string '
     'parse_material can store: C09_normalize_float_idempotent, '
